@@ -326,27 +326,30 @@ func (p *prop) Finish(s *core.Session) {
 // ---------------------------------------------------------------- case syntax
 
 type step struct {
-	text  string
-	op    byte
-	keys  []int
-	p     bool
-	d     int
-	m     int
-	r     int
-	q     int
-	s     int
-	x     int   // max_requests of the first upstream (0 = not set)
-	dyn   bool  // Y step: the upstreams come from a dynamic source
-	skeys []int // Y step: static upstreams (fallback while the source fails)
-	ws    bool  // N step: the request asks for a protocol upgrade (websocket)
-	fail  bool  // E step: the source starts (true) / stops failing
-	lat   bool  // passive unhealthy_latency configured (latencyLimit)
-	act   bool  // active health checks run every few milliseconds (thresholds out of reach: they must not change anything)
-	get   bool
-	rid   int
-	out   string
-	key   int
-	n     int
+	text   string
+	op     byte
+	keys   []int
+	p      bool
+	d      int
+	m      int
+	r      int
+	q      int
+	s      int
+	x      int   // max_requests of the first upstream (0 = not set)
+	dyn    bool  // Y step: the upstreams come from a dynamic source
+	skeys  []int // Y step: static upstreams (fallback while the source fails)
+	ws     bool  // N step: the request asks for a protocol upgrade (websocket)
+	fail   bool  // E step: the source starts (true) / stops failing
+	lat    bool  // passive unhealthy_latency configured (latencyLimit)
+	act    bool  // active health checks run every few milliseconds (thresholds out of reach: they must not change anything)
+	areal  bool  // active health checks driven by K steps, thresholds aP / aF
+	aP, aF int
+	hok    bool // H step: the health endpoint passes (true) / fails
+	get    bool
+	rid    int
+	out    string
+	key    int
+	n      int
 }
 
 // num parses a strict decimal: digits only, no leading zero, at most 4 digits.
@@ -426,10 +429,16 @@ func parseStep(s string, K int) (st step, ok bool) {
 			// the background, 3 = both (then the ninth field may be 0)
 			x, okx := num(f[8])
 			l, okl := num(f[9])
-			if !okx || !okl || x > 100 || l < 1 || l > 3 {
+			if !okx || !okl || x > 100 || l < 1 || l > 7 {
 				return st, false
 			}
-			st.x, st.lat, st.act = x, l == 1 || l == 3, l >= 2
+			if l <= 3 {
+				st.x, st.lat, st.act = x, l == 1 || l == 3, l >= 2
+			} else {
+				// 4..7: active health checks driven round by round by the schedule (K steps), with
+				// passes = 1 + (l-4)/2 and fails = 1 + (l-4)%2; one Host per check: distinct addresses
+				st.x, st.areal, st.aP, st.aF = x, true, 1+(l-4)/2, 1+(l-4)%2
+			}
 		}
 		if len(f) == 9 && st.op == 'L' {
 			var okx bool
@@ -451,6 +460,15 @@ func parseStep(s string, K int) (st step, ok bool) {
 		for _, b := range o {
 			if !b {
 				return st, false
+			}
+		}
+		if st.areal {
+			seen := map[int]bool{}
+			for _, key := range st.keys {
+				if seen[key] {
+					return st, false
+				}
+				seen[key] = true
 			}
 		}
 		return st, pv <= 1 && st.r <= 8 && st.s <= 7 && st.m <= 100 && st.q <= 100
@@ -488,6 +506,15 @@ func parseStep(s string, K int) (st step, ok bool) {
 		}
 		st.fail = f[1] == "1"
 		return st, true
+	case 'H':
+		if len(f) != 3 || (f[2] != "0" && f[2] != "1") {
+			return st, false
+		}
+		st.key, ok = num(f[1])
+		st.hok = f[2] == "1"
+		return st, ok && st.key < K
+	case 'K':
+		return st, len(f) == 1
 	case 'D', 'U':
 		if len(f) != 2 {
 			return st, false
@@ -527,8 +554,16 @@ func parseSched(f []string) (K int, steps []step, ok bool) {
 		steps = append(steps, st)
 	}
 	lat := false
+	bg, real := false, false
 	for _, st := range steps {
 		lat = lat || (st.lat && st.p)
+		bg = bg || st.act
+		real = real || st.areal
+	}
+	if bg && real {
+		// free-running background checks would move the active counters of the shared Hosts
+		// by an unknown amount: they cannot be mixed with checks the schedule drives
+		return 0, nil, false
 	}
 	// with unhealthy_latency no time may pass: how long a request stays parked would decide
 	// whether its round trip counts as slow
@@ -574,7 +609,8 @@ type cfgGen struct {
 	h        *reverseproxy.Handler
 	cancel   context.CancelFunc
 	canceled bool
-	objs     []int // object id of every upstream
+	objs     []int  // object id of every upstream
+	adown    []bool // shadow: upstream marked down by the active checker
 }
 
 type reqSt struct {
@@ -608,6 +644,7 @@ type backend struct {
 	srv    *http.Server
 	old    []*http.Server
 	health atomic.Int64 // active health checks served
+	hbad   atomic.Bool  // the scripted health endpoint fails
 }
 
 type shadowFail struct {
@@ -656,6 +693,7 @@ type kase struct {
 	dynCalls       []dynCall // every GetUpstreams call of the dynamic source, in order (under mu)
 	dynSeen        int
 	srcFails       atomic.Bool // the dynamic source answers with an error
+	aPass, aFail   map[int]int // shadow of Host.activePasses / activeFails per object
 	raced          bool        // see the O/A step: a retry that only scheduler noise makes possible
 	infra          string
 }
@@ -722,6 +760,15 @@ func (b *backend) closeAll() {
 }
 
 func (b *backend) ServeHTTP(w http.ResponseWriter, r *http.Request) {
+	if r.URL.Path == "/verif-hc" {
+		// an active health check of a configuration whose checks the schedule drives: the answer
+		// is what the schedule last said for this backend
+		if b.hbad.Load() {
+			w.WriteHeader(503)
+		}
+		w.Write([]byte("health"))
+		return
+	}
 	if r.URL.Path == "/verif-health" {
 		// an active health check: answered at once, alternately passing and failing
 		if b.health.Add(1)%2 == 0 {
@@ -879,6 +926,18 @@ func (k *kase) handlerJSON(st step, bad bool) []byte {
 		}
 		m["health_checks"] = map[string]any{"passive": pa}
 	}
+	if st.areal && !st.dyn {
+		// active health checks that the schedule drives: the ticker is out of reach (1 h), the
+		// first round runs at Provision, further rounds on K steps
+		hc, _ := m["health_checks"].(map[string]any)
+		if hc == nil {
+			hc = map[string]any{}
+		}
+		hc["active"] = map[string]any{"uri": "/verif-hc", "interval": int64(time.Hour),
+			"timeout": int64(2 * time.Second), "passes": st.aP, "fails": st.aF}
+		m["health_checks"] = hc
+		k.tag("active-health-checks-modelled")
+	}
 	if st.act && !st.dyn {
 		// active health checks against the same backends, every 8 ms, half of them failing; the
 		// `fails` threshold is out of reach, so no upstream is ever marked down by them: whatever
@@ -913,7 +972,7 @@ func (k *kase) handlerJSON(st step, bad bool) []byte {
 // as a JSON object; ok=false if the step cannot be written as Caddyfile (an upstream's own
 // max_requests; passive checks present but with no option set).
 func (k *kase) viaCaddyfile(st step) (map[string]any, bool) {
-	if st.dyn || st.act || st.x > 0 || (st.p && st.d == 0 && st.m == 0 && st.q == 0 && st.s == 0 && !st.lat) {
+	if st.dyn || st.act || st.areal || st.x > 0 || (st.p && st.d == 0 && st.m == 0 && st.q == 0 && st.s == 0 && !st.lat) {
 		return nil, false
 	}
 	var b strings.Builder
@@ -1011,7 +1070,66 @@ func (k *kase) load(st step, bad bool) (ev string) {
 		}
 		k.unload(old)
 	}
+	c.adown = make([]bool, len(c.objs))
+	if st.areal {
+		k.activeRound(c) // the checker's first round, started by Provision
+	}
 	return "L"
+}
+
+// activeRound: the shadow of one round of active health checks of configuration c (written from
+// healthchecks.go markHealthy / markUnhealthy: count the result on the Host; at the threshold,
+// if the upstream's status changes, reset both active counters), then wait until the
+// implementation shows exactly that.
+func (k *kase) activeRound(c *cfgGen) {
+	if k.aPass == nil {
+		k.aPass, k.aFail = map[int]int{}, map[int]int{}
+	}
+	for i, o := range c.objs {
+		key := c.st.keys[i]
+		pass := k.backends[key].srv != nil && !k.backends[key].hbad.Load()
+		if pass {
+			k.aPass[o]++
+			if k.aPass[o] >= c.st.aP && c.adown[i] {
+				c.adown[i] = false
+				k.aPass[o], k.aFail[o] = 0, 0
+				k.tag("active-flip-up")
+			}
+		} else {
+			k.aFail[o]++
+			if k.aFail[o] >= c.st.aF && !c.adown[i] {
+				c.adown[i] = true
+				k.aPass[o], k.aFail[o] = 0, 0
+				k.tag("active-flip-down")
+			}
+		}
+	}
+	deadline := time.Now().Add(5 * time.Second)
+	for {
+		okAll := true
+		for i, u := range c.h.Upstreams {
+			hs := u.VerifHostState()
+			o := c.objs[i]
+			if int(hs.ActivePasses) != k.aPass[o] || int(hs.ActiveFails) != k.aFail[o] || u.VerifActiveHealthy() == c.adown[i] {
+				okAll = false
+			}
+		}
+		if okAll {
+			return
+		}
+		if time.Now().After(deadline) {
+			for i, u := range c.h.Upstreams {
+				hs := u.VerifHostState()
+				o := c.objs[i]
+				if int(hs.ActivePasses) != k.aPass[o] || int(hs.ActiveFails) != k.aFail[o] || u.VerifActiveHealthy() == c.adown[i] {
+					k.fail("active-check-state-differs", fmt.Sprintf("after a round of active health checks upstream %d has passes=%d fails=%d activeHealthy=%v, expected passes=%d fails=%d activeHealthy=%v",
+						i, hs.ActivePasses, hs.ActiveFails, u.VerifActiveHealthy(), k.aPass[o], k.aFail[o], !c.adown[i]))
+				}
+			}
+			return
+		}
+		time.Sleep(200 * time.Microsecond)
+	}
 }
 
 func (k *kase) unload(c *cfgGen) {
@@ -1232,6 +1350,10 @@ func (k *kase) snapshot(ev string) string {
 				c = "?"
 			}
 			fmt.Fprintf(&b, "%d%s", k.cur.objs[i], c)
+			if k.cur.st.areal {
+				hs := u.VerifHostState()
+				fmt.Fprintf(&b, ":%d/%d", hs.ActivePasses, hs.ActiveFails)
+			}
 		}
 	}
 	b.WriteString("][")
@@ -1487,6 +1609,21 @@ func (p *prop) runSched(K int, src stepSource, U time.Duration, cf bool) (impl s
 				// That is scheduler noise, not a schedule: run the case again.
 				k.raced = true
 			}
+		case 'H':
+			if k.backends[st.key].hbad.Load() == !st.hok {
+				ok = false
+				break
+			}
+			k.backends[st.key].hbad.Store(!st.hok)
+			ev = "-"
+		case 'K':
+			if k.cur == nil || k.cur.canceled || !k.cur.st.areal {
+				ok = false
+				break
+			}
+			k.cur.h.VerifActiveHealthCheckAll()
+			k.activeRound(k.cur)
+			ev = "K"
 		case 'E':
 			if k.srcFails.Load() == st.fail {
 				ok = false
